@@ -4,6 +4,7 @@ import (
 	"fmt"
 	"math"
 	"strings"
+	"unicode/utf8"
 
 	"github.com/ChrisTrenkamp/xsel/node"
 	"github.com/ChrisTrenkamp/xsel/store"
@@ -282,45 +283,35 @@ func substring(context Context, args ...Result) (Result, error) {
 		return nil, errBadArgs
 	}
 
-	str := args[0].String()
+	str := []rune(args[0].String())
 	begin := getRound(args[1].Number())
+	end := math.Inf(1)
 
-	if float64(begin-1) >= float64(len(str)) || math.IsNaN(float64(begin)) {
-		return String(""), nil
+	if len(args) == 3 {
+		end = begin + getRound(args[2].Number())
 	}
 
-	if len(args) == 2 {
-		if begin <= 1 {
-			begin = 1
+	// The characters at the positions p with begin <= p < end; a NaN bound
+	// makes every comparison false.
+	ret := strings.Builder{}
+
+	for i, r := range str {
+		pos := float64(i + 1)
+
+		if pos >= begin && pos < end {
+			ret.WriteRune(r)
 		}
-
-		return String(str[int(begin)-1:]), nil
 	}
 
-	end := getRound(args[2].Number())
-
-	if end <= 0 || math.IsNaN(float64(end)) || (math.IsInf(float64(begin), 0) && math.IsInf(float64(end), 0)) {
-		return String(""), nil
-	}
-
-	if begin <= 1 {
-		end = begin + end - 1
-		begin = 1
-	}
-
-	if float64(begin+end-1) >= float64(len(str)) {
-		end = float64(len(str)) - begin + 1
-	}
-
-	return String(str[int(begin)-1 : int(begin+end)-1]), nil
+	return String(ret.String()), nil
 }
 
 func stringLength0(context Context, args ...Result) (Result, error) {
-	return Number(len(context.Result().String())), nil
+	return Number(utf8.RuneCountInString(context.Result().String())), nil
 }
 
 func stringLength1(context Context, args ...Result) (Result, error) {
-	return Number(len(args[0].String())), nil
+	return Number(utf8.RuneCountInString(args[0].String())), nil
 }
 
 func normalizeSpace0(context Context, args ...Result) (Result, error) {
